@@ -7,7 +7,8 @@
 // github.com/emersion/go-webdav/internal (and webdav.ConditionalMatch), the
 // same codecs through encoding/xml and the library's element structs, and the
 // unexported CalDAV UTC date-time end-to-end through caldav.Client and
-// caldav.Handler. Oracles are written here from the grammars; nothing of the
+// caldav.Handler, and the header side of entity tags and HTTP dates through
+// the CalDAV / CardDAV servers and clients. Oracles are written here from the grammars; nothing of the
 // library is used to compute an expectation.
 package c16
 
@@ -161,6 +162,9 @@ func init() {
 			"Retained-output family (every encoder that hands out a []byte or string: Status/ETag/Time/Href MarshalText, ETag/Href/Depth String, FormatOverwrite, xml.Marshal of propstat/getetag/getlastmodified/response): " +
 			"encode A and keep the result plus a copy, encode 2-5 more values whose encodings are shorter/equal/longer, then every kept output must equal its copy and decode to its value; " +
 			"concurrent variant with 2-8 goroutines each decoding its own kept output after yielding, under GOMAXPROCS 1 and 4; decoder mirror: decode from one reused buffer that is scribbled over after each call, decoded values must not change. " +
+			"Header side (headers.go): one case in four of the generated tags / instants / wire texts, all 1-byte tags, all boundary instants and all enumerated near-misses also travel as the ETag / Last-Modified field of the answer to GET and PUT of a calendar object and an address object: " +
+			"round trip backend object -> caldav.Handler / carddav.Handler -> in-process HTTP -> caldav.Client / carddav.Client Get*Object / Put*Object -> object (same oracles; the Last-Modified field on the wire must be an IMF-fixdate of the instant); decode = the same four client calls on a canned answer carrying the text (keys decode|etag-header|..., decode|http-date-header|...). " +
+			"CalDAV date-time positions: three time-ranges plus calendar-data/expand, in calendar-query and calendar-multiget, client side (QueryCalendar, MultiGetCalendar) and server side (observed at the CalendarCompRequest the backend receives). " +
 			"distinct_nontrivial counts distinct abstract case classes (primitive, path, feature set of the value / near-miss class, zone kind and year bucket, status class and phrase kind).",
 		Assumptions: []string{
 			"entity tag: must-reject = texts that (after trimming ASCII white space) are not of the form DQUOTE ... DQUOTE, or contain an interior DQUOTE not preceded by a backslash; white-space-wrapped quoted tags are don't-care; a quoted text without backslash must, if accepted, decode to exactly its interior bytes",
@@ -170,6 +174,7 @@ func init() {
 			"href: domain = absolute paths whose first segment is non-empty; must-reject = invalid percent escapes, raw control bytes, missing scheme before ':', unterminated IP literal; everything else (raw spaces, non-ASCII) is don't-care",
 			"Depth / Overwrite: the grammars are exactly {0,1,infinity} and {T,F}, case- and space-sensitive (RFC 4918 sections 10.2, 10.6)",
 			"retained-output family: Parse* take Go strings (immutable), so they have no input-buffer mirror; the concurrent variant's schedule is not deterministic, but on code without shared encoder state every schedule passes",
+			"header side: only texts that can be a received field value are put to the header readers (no control byte but HTAB, no surrounding white space, not empty - an empty field cannot be told from an absent one); a zero time.Time may be sent without a Last-Modified field; calendar-data/expand with one attribute missing is not decided (RFC 4791 wants both)",
 			"named zones come from Go's embedded time/tzdata, so the case list does not depend on the host's zoneinfo",
 		},
 		MinEvals: func(t string) int64 {
